@@ -40,6 +40,17 @@ def gen_groups(chk, w, thorough):
                         g = [0] * 8
                         g[i], g[j] = v, u
                         out.append(g)
+        # uniform groups and short-period patterns (what a "fast path" would single out), ramps
+        for v in range(m):
+            out.append([v] * 8)
+            for u in range(m):
+                out.append([v, u] * 4)
+                out.append([v, v, u, u] * 2)
+                out.append([v] * 4 + [u] * 4)
+                out.append([v] * 7 + [u])
+                out.append([u] + [v] * 7)
+        out.append([i % m for i in range(8)])
+        out.append([(7 - i) % m for i in range(8)])
         n = 400000 if thorough else 60000
         for _ in range(n):
             out.append([chk.rng.randrange(m) for _ in range(8)])
@@ -127,7 +138,7 @@ def run(chk):
         "trusted_base": TRUSTED_BASE,
         "forbidden_constructs": pr["forbidden_constructs"],
         "evaluations": len(ops) + len(rt_ops), "distinct_nontrivial": len(nontrivial),
-        "rule": "pack/unpack groups: all 2^8 and 4^8 value groups and all 1- and 2-byte groups (exhaustive); for w=3,4 every single-value and two-value group over zero/all-ones backgrounds plus seeded random groups; non-trivial = distinct group with at least one non-zero element",
+        "rule": "pack/unpack groups: all 2^8 and 4^8 value groups and all 1- and 2-byte groups (exhaustive); for w=3,4 every single-value and two-value group over zero/all-ones backgrounds, all uniform groups and period-2/4 patterns, plus seeded random groups; non-trivial = distinct group with at least one non-zero element",
         "exhaustive": False,
         "samples": [ops[0], ops[len(ops) // 3], ops[len(ops) // 2], ops[-1]],
         "tie": "exact: PQ.pack/PQ.unpack (wrappers over the translated tables) vs bitpack.Pack/Unpack via the verif hook",
